@@ -729,7 +729,12 @@ impl<'tcx> Dumper<'tcx> {
             if is_const {
                 let body = tcx.mir_for_ctfe(did);
                 v.push(("body", self.body_json(body, did)));
-                v.push(("promoted", Json::Arr(vec![])));
+                let proms = tcx.promoted_mir(did);
+                let mut pv = vec![];
+                for (pi, pb) in proms.iter_enumerated() {
+                    pv.push(obj(vec![("idx", n(pi.as_u32())), ("body", self.body_json(pb, did))]));
+                }
+                v.push(("promoted", Json::Arr(pv)));
                 v.push(("type_params", Json::Arr(vec![])));
                 fns.push(obj(v));
                 continue;
